@@ -65,8 +65,21 @@ PROP = dict(
           "the height of the tree faults there (ASan: stack-overflow; unsanitized: SIGSEGV) and the driver attributes the crash to the "
           "case. Every quick run: each shape once with 12000 (ASan) / 24000 (unsanitized) entries on 256 KiB, plus 8 generated cases per "
           "build with 6000..16000 / 10000..40000 entries (thorough: up to 30000 / 80000; one case in five is a short chain). "
-          "Distinct = distinct case encodings (hash)."),
-    assumptions=["single-threaded use", "at() of an absent point throws std::out_of_range",
+          "Distinct = distinct case encodings (hash). "
+          "Signed zeros (kdq2 / kdq3, double coordinates): in half of the double cases the zero coordinate (grid line g = shift) is spelled with "
+          "different signs when a point is stored and when it is queried - stored -0.0 / queried +0.0, stored +0.0 / queried -0.0, or mixed by "
+          "insertion number and axis - for at / exists / erase and the corners of boxes; the model stays on the integer grid, i.e. compares "
+          "coordinates by IEEE == (and the harness compares points coordinate-wise, not through Vector::operator==). "
+          "Exceptions (kdx, KDTree<Vector2/3<int64_t>, ThrowingValue>): histories of insert / emplace / duplicate insert / erase / sweep in which "
+          "the k-th (k = 1, 2) copy construction of the value during a chosen insertion throws; after an insertion that ended with an exception "
+          "size() must equal the number of entries the iteration visits, that number must be the old one or the old one + 1 (the exception may come "
+          "from building the returned iterator, after the entry was stored), and the full battery compares the tree with the model chosen that way; "
+          "no value object may be left alive or used after destruction when the tree is gone. Exhaustive: every sequence of 1..3 (thorough 4) "
+          "insertions into the 3x3 grid x every subset of them failing, followed by an insertion, an erase and an emptying sweep; random: 5000 histories"),
+    assumptions=["an insertion that exits with an exception (copying the value threw) leaves the tree a multiset a plain list could be - with or "
+                 "without that entry, which the statement leaves open - so size(), iteration and all queries still agree with each other",
+                 "+0.0 and -0.0 are the same coordinate (IEEE ==; neither is smaller than the other)",
+                 "single-threaded use", "at() of an absent point throws std::out_of_range",
                  "in the exhaustive blocks the full battery runs after the insertions and after those erases that reach a state for "
                  "the first time in lexicographic order of the erase orders (the same tree is rebuilt for every order)",
                  "k=6 (thorough) and k=5 (quick) exhaustive levels run without sanitizers: functional equality only",
